@@ -119,11 +119,32 @@ def run(ctx: Ctx):
                 at = gv.guard_atoms(cfg.stmt_node_containing(a), stable_only=False)
                 ctx.ob("C15-O5", "R1 STATUS-GUARD", d, "bridge iff low[child] > discovery[v] (strict), for tree edges only", atom_of(f"low[{w}] > discovery[{v}]") in at and f"{w} not in discovery" in at, f"{sorted(at)}", node=a)
                 edge = [n for n in own_nodes(d.node) if isinstance(n, ast.Assign) and ast.unparse(n.targets[0]) == ast.unparse(a.args[0])]
+                scope_ = d.node
+                arg0 = a.args[0]
+                if not edge and isinstance(arg0, ast.Call) and isinstance(arg0.func, ast.Name) and [ast.unparse(x) for x in arg0.args] == [v, w] and ctx.repo.has_func("articulation", arg0.func.id):
+                    # the orientation lives in a helper called with (v, child): its returns are read as the assignments,
+                    # with its parameters standing for the two labels
+                    hf = ctx.repo.func("articulation", arg0.func.id)
+                    ps = [p_.arg for p_ in hf.node.args.args]
+                    if len(ps) == 2:
+                        ren = {ps[0]: v, ps[1]: w}
+
+                        class _Ren(ast.NodeTransformer):
+                            def visit_Name(self, n_):
+                                return ast.copy_location(ast.Name(id=ren.get(n_.id, n_.id), ctx=n_.ctx), n_)
+
+                        import copy as _copy
+
+                        scope_ = _Ren().visit(_copy.deepcopy(hf.node))
+                        edge = [ast.copy_location(ast.Assign(targets=[ast.Name(id="edge", ctx=ast.Store())], value=r_.value), r_) for r_ in ast.walk(scope_) if isinstance(r_, ast.Return) and r_.value is not None]
+                        for t_ in ast.walk(scope_):
+                            if isinstance(t_, ast.Try):
+                                t_.body = [next((e_ for e_ in edge if e_.value is b_.value), b_) if isinstance(b_, ast.Return) else b_ for b_ in t_.body]
                 forms = sorted(ast.unparse(e_.value) for e_ in edge)
                 canon_f = f"({v}, {w}) if {v} < {w} else ({w}, {v})"
                 ctx.ob("C15-O5", "R1 STATUS-GUARD", d, "published edge is the tree edge (v, child): smaller label first, or in tree direction when the labels cannot be compared", canon_f in forms and set(forms) <= {canon_f, f"({v}, {w})", f"({w}, {v})"}, f"{forms}", node=a)
                 cmp_sites = [e_ for e_ in edge if ast.unparse(e_.value) == canon_f]
-                guarded = all(any(isinstance(t_, ast.Try) and any(e_ is x for b_ in t_.body for x in ast.walk(b_)) and any(h.type is not None and "TypeError" in ast.unparse(h.type) for h in t_.handlers) for t_ in own_nodes(d.node)) for e_ in cmp_sites)
+                guarded = all(any(isinstance(t_, ast.Try) and any(e_ is x for b_ in t_.body for x in ast.walk(b_)) and any(h.type is not None and "TypeError" in ast.unparse(h.type) for h in t_.handlers) for t_ in ast.walk(scope_)) for e_ in cmp_sites)
                 ctx.ob("C15-O5", "R31 NO-UNDEFINED", d, "comparing the two labels of a bridge cannot end the call (labels are any hashables: None next to ints, strings next to ints)", bool(cmp_sites) and guarded, f"`{canon_f}` outside a `try .. except TypeError`: bridges of a graph with unorderable labels are not returned, the call raises (ledger row 81)", node=a)
         tt = ast.unparse(f.node)
         ctx.ob("C15-O5", "R29 EXACTLY-ONCE", f, "every undiscovered node starts a DFS as a root", "for v in node_list:\n        if v not in discovery:\n            parent[v] = _ROOT\n            dfs(v)" in tt, "", node=f.node)
